@@ -66,11 +66,15 @@ func (e *Exec) guard(st *State, bad *Term, msg, site string) (ok *State, out []*
 
 func (e *Exec) step(st *State, fr *Frame, ins ssa.Instruction) []*State {
 	site := e.pos(ins.Pos())
+	e.curSite = site
 	switch x := ins.(type) {
 	case *ssa.DebugRef:
 		return []*State{st}
 	case *ssa.Alloc:
 		id := e.newObj(st, e.zero(x.Type().(*types.Pointer).Elem()))
+		if e.conc != nil {
+			e.objSite[id] = site + "(" + x.Comment + ")"
+		}
 		fr.Env[x] = Ptr{Obj: id}
 		return []*State{st}
 	case *ssa.UnOp:
@@ -247,9 +251,8 @@ func (e *Exec) unop(st *State, fr *Frame, x *ssa.UnOp, site string) []*State {
 			return []*State{e.rtPanic(st, "invalid memory address or nil pointer dereference", site)}
 		}
 		if e.conc != nil {
-			if r, ok := e.conc.sharedLoad(e, st, p, x.Type(), site); ok {
-				fr.Env[x] = r
-				return []*State{st}
+			if sts, ok := e.conc.sharedLoad(e, st, p, x.Type(), site, func(s *State, v Value) { s.Top().Env[x] = v }); ok {
+				return sts
 			}
 		}
 		fr.Env[x] = e.load(st, p)
